@@ -37,6 +37,13 @@ structure ObsScan where
   states : List ObsState
 deriving FromJson, ToJson, Repr, Inhabited
 
+/-- What a group's own listers returned right after the scan (names, sorted). -/
+structure ObsList where
+  name : String
+  pods : List String
+  nodes : List String
+deriving FromJson, ToJson, Repr, Inhabited
+
 structure ScanCase where
   nowMock : Int
   nowReal : Int
@@ -46,6 +53,8 @@ structure ScanCase where
   resps : List Resp
   desc : List (String × Resp)
   obs : ObsScan
+  lists : Option (List ObsList) := none
+  mutated : Option (List String) := none
 deriving FromJson, ToJson, Repr, Inhabited
 
 structure ObsInit where
